@@ -17,8 +17,8 @@ CHECKS = {
          "Coq theorems (Props/C02.v): arithmetic of splitting by any positive step in stacks of any depth (exactly one partition chain per coordinate, n-way step bounds, merge recovers the coordinate); laws of the runtime model's own operations for fibers of any size (split_uniform partitions, split then merge1 = identity incl. at depth d, halo characterisation, swizzle lookup/inverse); C02_partitioned_nest_sound_partial / _two_levels_partial: for ANY loop order over the levels the loop nest over shape-partitioned tensors contributes at every consistent point exactly the Einsum's value at the original point and nothing elsewhere, each original point having exactly one representative. Per program: the certified nest validator of C01 is evaluated by the kernel on the PARTITIONED nest read off every shape-partitioned product/take program together with the static side conditions of the partition theorems (same step and level names for every tensor holding the rank; the footer merges exactly the level chain) + kernel-evaluated execution of every emitted partitioned program (any loop order over the levels, literal/symbolic sizes not dividing or exceeding the extent, identical adjacent directives, index-math Einsums with W following Q) against the dense oracle; static side condition eager_inputs_aligned with targeted failing-input search.",
          EXEC_NOTE + "tools/nestview.py, tools/patterns.py (fail-closed readings of the text).", "Rocq theorems (lia over Z, list induction, nest-level partition theorem, certified validator per program) + kernel-evaluated execution vs oracle", "DESIGN.md section 0A / 6 C02"),
  "C03": ("translation_validation",
-         "Coq theorems about the interpreter's own splitEqual (chunks concatenate back, sizes) and the leader/follower boundary law (exactly one follower partition per coordinate, the leader's one) + kernel-evaluated execution of every emitted program with occupancy partitioning/flattening against the dense oracle.",
-         EXEC_NOTE, "Rocq theorems (list induction over sorted boundaries) + kernel-evaluated execution vs oracle", "DESIGN.md section 6 C03"),
+         "Coq theorems (Props/C03.v): the interpreter's own splitEqual (chunks concatenate back, sizes), the leader/follower boundary law, laws of the runtime model's operations for fibers of any size (split_equal/split_nonuniform then merge1 = identity incl. at depth d, flatten1 then unflatten1 = identity, paths and lexicographic order preserved); and occupancy partitioning in the loop nest (17 C03_nest_* theorems over Model/NestOcc.v): for ANY loop order over the levels the nest over the leader cut into chunks of n and the followers cut at the leader's boundaries contributes at every consistent point the product term's value at the original point and nothing elsewhere; every non-zero original point has exactly one representative (none separated, none met twice); the DYNAMIC position (the cut happens when the nest reaches the rank, boundaries depend on the reached state); stacks (occupancy beneath shape / beneath occupancy, shape beneath occupancy); the nest-level cuts ARE Rt.split_nonuniform / Rt.split_equal under the embedding of nest tries. + kernel-evaluated execution of every emitted program with occupancy partitioning (1-3 levels, leader per level, beneath shape levels) / flattening (tuples from any tensor, second flatten, flatten + shape split) / renamed ranks / pairs of partitioned Einsums against the dense oracle; a static leader/follower validator over the emitted text with targeted failing-input search; any rejection outside two structurally recognised classes is a violation.",
+         EXEC_NOTE + "tools/patterns_occ.py (data-flow reading of the emitted text), tools/specgen_wide.py rejection_class.", "Rocq theorems (runtime-model laws, nest-level occupancy theorems) + kernel-evaluated execution vs oracle + static leader/follower validator", "DESIGN.md section 0A / 6 C03"),
  "C04": ("translation_validation",
          "Coq theorems over Z (access inversion, halo of a tile contains every needed input, tiles partition [0,Q), interval clipping), a kernel-computed refutation of exactness in binary64 (finding F11) and a finite exactness sweep for power-of-two denominators + kernel-evaluated execution (PrimFloat = Python floats) of every emitted affine program against the dense oracle with out-of-extent detection. Four known findings (F4, F5, F11, F12) are keyed structurally on the emitted text.",
          EXEC_NOTE + "PrimFloat/PrimInt63 kernel primitives appear under Print Assumptions of the two float theorems.", "Rocq theorems (lia; vm_compute float witnesses) + kernel-evaluated execution vs oracle", "DESIGN.md section 6 C04"),
